@@ -241,7 +241,7 @@ async fn run_drop(w: &Value, k: u64) -> (Vec<String>, bool) {
     let op = w["op"].clone();
     let mut call = op.clone();
     call["e"] = json!("call");
-    if op["op"] == "close" {
+    if op["op"] == "close" || op["op"] == "close_collection" {
         call["op"] = json!("reopen");
     }
     ctx.tr.emit(call);
@@ -251,7 +251,21 @@ async fn run_drop(w: &Value, k: u64) -> (Vec<String>, bool) {
         let op2 = op.clone();
         // unconstrained: tokio's cooperative budget must not turn lock acquisitions into spurious
         // suspension points of the manually polled future
-        let mut fut = Box::pin(tokio::task::unconstrained(async move { exec_op(&col2, &op2).await }));
+        let db2 = ctx.db.clone();
+        let mut fut = Box::pin(tokio::task::unconstrained(async move {
+            match op2["op"].as_str().unwrap() {
+                // the database-level calls (per-name lifecycle lock around the transition)
+                "close_collection" => {
+                    let r = db2.close_collection(COL).await;
+                    json!({"e": "ret", "op": "close", "ok": r.is_ok()})
+                }
+                "delete" => {
+                    let r = db2.delete_collection(COL).await;
+                    json!({"e": "ret", "op": "delete", "ok": r.is_ok()})
+                }
+                _ => exec_op(&col2, &op2).await,
+            }
+        }));
         let mut done = None;
         for _ in 0..k {
             if let std::task::Poll::Ready(r) = futures::poll!(fut.as_mut()) {
@@ -266,11 +280,35 @@ async fn run_drop(w: &Value, k: u64) -> (Vec<String>, bool) {
     match completed {
         Some(ret) => {
             ctx.tr.emit(ret);
-            if op["op"] != "close" {
+            if op["op"] == "delete" {
+                ctx.tr.emit(json!({"e": "listing", "n": listing(&ctx.store).await}));
+                ctx.tr.emit(json!({"e": "state", "v": format!("{:?}", retained.state())}));
+            } else if op["op"] != "close" && op["op"] != "close_collection" {
                 let obs = observe(&retained, MAX_ID).await;
                 ctx.tr.emit(obs);
             }
             (ctx.tr.take_lines(), true)
+        }
+        None if op["op"] == "delete" => {
+            // a cancelled delete_collection: the handle and the name stay tombstoned, nothing can write or
+            // open over the prefix, and a RETRY finishes the deletion
+            ctx.tr.emit(json!({"e": "drop", "k": k}));
+            ctx.tr.emit(json!({"e": "state", "v": format!("{:?}", retained.state())}));
+            call_all_quiet(&ctx, &retained).await;
+            retained.set_read_only(false);
+            ctx.tr.emit(json!({"e": "ro", "on": false, "scope": "col"}));
+            call_all_quiet(&ctx, &retained).await;
+            ctx.tr.emit(json!({"e": "qcall", "op": "open"}));
+            let r = ctx.db.open_collection(COL.to_string(), async |_c| Ok(())).await;
+            ctx.tr.emit(json!({"e": "qret", "op": "open", "ok": r.is_ok()}));
+            ctx.tr.emit(json!({"e": "call", "op": "delete"}));
+            let r = ctx.db.delete_collection(COL).await;
+            ctx.tr.emit(json!({"e": "ret", "op": "delete", "ok": r.is_ok()}));
+            ctx.tr.emit(json!({"e": "listing", "n": listing(&ctx.store).await}));
+            ctx.tr.emit(json!({"e": "state", "v": format!("{:?}", retained.state())}));
+            call_all_quiet(&ctx, &retained).await;
+            ctx.tr.emit(json!({"e": "listing", "n": listing(&ctx.store).await}));
+            (ctx.tr.take_lines(), false)
         }
         None => {
             ctx.tr.emit(json!({"e": "drop", "k": k}));
